@@ -18,6 +18,7 @@ pub mod c14;
 pub mod c15;
 pub mod c15b;
 pub mod c16b;
+pub mod c17b;
 pub mod c18;
 pub mod c19;
 pub mod c20;
@@ -36,7 +37,13 @@ pub fn run(ctx: &Ctx) -> Option<Report> {
             r.nontrivial_floor = floor;
             Some(r)
         }
-        "C17" => Some(stateful::run_target(ctx, Target::C17)),
+        "C17" => {
+            let mut r = stateful::run_target(ctx, Target::C17);
+            let floor = r.nontrivial_floor;
+            r.merge(c17b::run(ctx));
+            r.nontrivial_floor = floor;
+            Some(r)
+        }
         "C03" => {
             let mut r = stateful::run_target(ctx, Target::C03);
             let floor = r.nontrivial_floor;
@@ -116,7 +123,13 @@ pub fn replay(ctx: &Ctx, case: &Value) -> Option<Report> {
                 Some(stateful::replay_target(ctx, Target::C16, case))
             }
         }
-        "C17" => Some(stateful::replay_target(ctx, Target::C17, case)),
+        "C17" => {
+            if case.get("half").and_then(|h| h.as_str()) == Some("c17b") {
+                Some(c17b::replay(ctx, case))
+            } else {
+                Some(stateful::replay_target(ctx, Target::C17, case))
+            }
+        }
         "C03" => {
             if case.get("ops").is_some() {
                 Some(stateful::replay_target(ctx, Target::C03, case))
